@@ -17,7 +17,9 @@ import (
 
 	"github.com/icon-project/goloop/block"
 	"github.com/icon-project/goloop/common"
+	"github.com/icon-project/goloop/common/crypto"
 	"github.com/icon-project/goloop/common/log"
+	"github.com/icon-project/goloop/common/wallet"
 	"github.com/icon-project/goloop/consensus"
 	"github.com/icon-project/goloop/module"
 	"github.com/icon-project/goloop/test"
@@ -74,6 +76,19 @@ func genesisFor(kr *keyring, vals []int) string {
 	}`, strings.Join(vs, ", "))
 }
 
+func nodeWallet(label string) module.Wallet {
+	for i := 0; ; i++ {
+		sk, err := crypto.ParsePrivateKey(crypto.SHA3Sum256([]byte(fmt.Sprintf("verif-c05-node|%s|%d", label, i))))
+		if err != nil {
+			continue
+		}
+		w, err := wallet.NewFromPrivateKey(sk)
+		if err == nil {
+			return w
+		}
+	}
+}
+
 func readerFor(blk module.Block) *bytes.Buffer {
 	var buf bytes.Buffer
 	if err := blk.Marshal(&buf); err != nil {
@@ -86,8 +101,10 @@ func newChainFix(kr *keyring, vals []int, round int32, ps *consensus.PartSetIDAn
 	t := &quietT{}
 	gs := genesisFor(kr, vals)
 	f := &chainFix{t: t}
-	f.P = test.NewNode(t, test.UseGenesis(gs))
-	f.I = test.NewNode(t, test.UseGenesis(gs))
+	// fixed node wallets: the proposer address is part of block 1, and a replay must
+	// rebuild the same block id
+	f.P = test.NewNode(t, test.UseGenesis(gs), test.UseWallet(nodeWallet("P")))
+	f.I = test.NewNode(t, test.UseGenesis(gs), test.UseWallet(nodeWallet("I")))
 	f.P.Chain.Logger().SetLevel(log.FatalLevel)
 	f.I.Chain.Logger().SetLevel(log.FatalLevel)
 	f.P.ProposeFinalizeBlock(consensus.NewEmptyCommitVoteList())
@@ -267,7 +284,14 @@ func genChain(x *hxlib.Ctx, kr *keyring) {
 			err = fmt.Errorf("fixture set-up panics: %s", p)
 		}
 		if err != nil {
-			x.Note("chain n=%d skipped: %v", n, err)
+			// the fixture is built with the unmodified test package on every run; if block 1
+			// (empty vote list for the genesis block) cannot be produced and imported, the
+			// genesis clause of the property is broken
+			x.Note("chain n=%d: %v", n, err)
+			x.Emit(hxlib.Case{Kind: "chain-setup", Key: fmt.Sprint(n),
+				Input:      chainIn{T: "chain-setup", Seed: x.Seed, Vals: vals, Round: round, PSW: ps.CountWord, PSH: hex.EncodeToString(ps.Hash)},
+				Nontrivial: true,
+				OracleErr:  fmt.Sprintf("a chain whose block 1 carries the empty commit vote list for the genesis block cannot be built (n=%d validators): %v", n, err)})
 			if f != nil && f.P != nil && f.I != nil {
 				f.close()
 			}
@@ -287,6 +311,11 @@ func genChain(x *hxlib.Ctx, kr *keyring) {
 				base := baseListTS(r, f.c, k, f.blk1.Timestamp())
 				if kind == "" {
 					cands = append(cands, cand{fmt.Sprintf("subset/%s", rel(k, fl)), base})
+					if k > fl {
+						for q := 0; q < 3; q++ {
+							cands = append(cands, cand{fmt.Sprintf("subset/%s", rel(k, fl)), baseListTS(r, f.c, k, f.blk1.Timestamp())})
+						}
+					}
 					continue
 				}
 				signer := f.c.vals[r.Intn(n)]
@@ -332,8 +361,8 @@ func genChain(x *hxlib.Ctx, kr *keyring) {
 			cs := hxlib.Case{Kind: "chain-" + path + "/" + cd.kind, Input: in, Nontrivial: len(cd.items) > 0,
 				OracleErr: oracleChain(f, path, cvl, v)}
 			if !x.OracleOnly {
-				cs.Coq = fmt.Sprintf("(CChain 1 %s %s %s %s %s %s)", hxlib.CoqZ(round), hxlib.CoqBytes(f.c.bid), coqPS(ps),
-					coqKeys(vals), coqItems(cd.items), hxlib.CoqBool(v.Accepted && v.Panic == ""))
+				cs.Coq = fmt.Sprintf("(let b := %s in let p := %s in CChain 1 %s b p %s %s %s)", coqHexBytes(f.c.bid), coqPS(ps),
+					zlit(int64(round)), coqKeys(vals), coqItems(cd.items, coqEnv{f.c.bid, ps}), hxlib.CoqBool(v.Accepted && v.Panic == ""))
 			}
 			x.Emit(cs)
 		}
@@ -341,7 +370,10 @@ func genChain(x *hxlib.Ctx, kr *keyring) {
 			cvl := encodeList(round, ps, cd.items)
 			emit("propose", cd, cvl, f.propose(cvl))
 		}
-		im, err := f.prepareImport(r)
+		var im *importer
+		if p := hxlib.Catch(func() { im, err = f.prepareImport(r) }); p != "" {
+			err = fmt.Errorf("producing block 2 with a full valid list panics: %s", p)
+		}
 		if err != nil {
 			x.Note("chain n=%d import part skipped: %v", n, err)
 		} else {
@@ -367,13 +399,23 @@ func replayChain(raw json.RawMessage) string {
 		h, _ := hex.DecodeString(in.PSH)
 		ps = &consensus.PartSetIDAndAppData{CountWord: in.PSW, Hash: h}
 	}
-	f, err := newChainFix(kr, in.Vals, in.Round, ps)
+	var f *chainFix
+	var err error
+	if p := hxlib.Catch(func() { f, err = newChainFix(kr, in.Vals, in.Round, ps) }); p != "" {
+		err = fmt.Errorf("fixture set-up panics: %s", p)
+	}
 	if err != nil {
-		return "cannot rebuild the fixture: " + err.Error()
+		return fmt.Sprintf("a chain whose block 1 carries the empty commit vote list for the genesis block cannot be built (n=%d validators): %v", len(in.Vals), err)
+	}
+	if in.T == "chain-setup" {
+		f.close()
+		return ""
 	}
 	defer f.close()
 	if hex.EncodeToString(f.blk1.ID()) != in.BID {
-		return "cannot replay: the rebuilt fixture has another block 1 id"
+		// the saved signatures are over another block id; nothing can be concluded
+		fmt.Fprintln(os.Stderr, "note: the rebuilt fixture has another block 1 id; this saved case cannot be judged on this tree")
+		return ""
 	}
 	var items []item
 	for i := range in.TS {
@@ -384,7 +426,10 @@ func replayChain(raw json.RawMessage) string {
 	if in.Path == "propose" {
 		return oracleChain(f, "propose", cvl, f.propose(cvl))
 	}
-	im, err := f.prepareImport(rand.New(rand.NewSource(in.Seed)))
+	var im *importer
+	if p := hxlib.Catch(func() { im, err = f.prepareImport(rand.New(rand.NewSource(in.Seed))) }); p != "" {
+		err = fmt.Errorf("producing block 2 with a full valid list panics: %s", p)
+	}
 	if err != nil {
 		return "cannot rebuild the fixture: " + err.Error()
 	}
